@@ -57,6 +57,8 @@ pub struct Compiler<'a> {
     upvalues: Vec<Upvalues>,
     scope_depth: Vec<i32>,
     current_index: CardIndex,
+    /// handle of the function being compiled, unique across modules
+    current_function_handle: Handle,
     function_id: usize,
 }
 
@@ -119,6 +121,7 @@ impl<'a> Compiler<'a> {
             upvalues: vec![Default::default()],
             scope_depth: vec![0],
             current_index: CardIndex::default(),
+            current_function_handle: Handle::default(),
             current_imports: Default::default(),
             function_id: 0,
         }
@@ -195,6 +198,7 @@ impl<'a> Compiler<'a> {
                 Err(_) => return Err(self.error(CompilationErrorPayload::TooManyCards(il))),
             };
             self.current_index = CardIndex::new(il, 0);
+            self.current_function_handle = main_function.handle;
             self.scope_begin();
             self.process_function(main_function)?;
             self.current_index = CardIndex {
@@ -214,6 +218,7 @@ impl<'a> Compiler<'a> {
         for function in functions {
             let il = function.function_index;
             self.current_index = CardIndex::function(il);
+            self.current_function_handle = function.handle;
             let nodeid_handle = function.handle;
             let handle = u32::try_from(self.program.bytecode.len())
                 .expect("bytecode length to fit into 32 bits");
@@ -778,8 +783,11 @@ impl<'a> Compiler<'a> {
 
                 self.compile_begin();
                 const CLOSURE_MASK: u64 = 0xEFEFEFEF;
-                let function_handle =
-                    self.current_index.as_handle() + Handle::from_u64(CLOSURE_MASK);
+                // card indices repeat in every module, the enclosing function's handle does not
+                let function_handle = self.current_index.as_handle()
+                    + Handle::from_u64(
+                        CLOSURE_MASK | ((self.current_function_handle.value() as u64) << 32),
+                    );
                 let arity = embedded_function.arguments.len() as u32;
                 let handle = u32::try_from(self.program.bytecode.len())
                     .expect("bytecode length to fit into 32 bits");
